@@ -586,6 +586,15 @@ pub fn run(ctx: &Ctx, prop: &'static str, quick: u64, thorough: u64) -> Report {
         if prop == "C12" {
             // the same assertion as c12.rs, on this workload (only conversations that do not end early)
             if ended {
+                // the owed-replies bookkeeping needs the whole conversation; "nothing written may be
+                // unflushed when the server reads" holds for every read of every conversation
+                for r in &obs.world.read_log {
+                    rep.counters.inc("reads_checked");
+                    if r.pending != 0 {
+                        fail("read-with-unflushed-output", format!("read() at input offset {} while {} written bytes were not flushed", r.pos, r.pending), rep);
+                        return;
+                    }
+                }
                 return;
             }
             let ends: Vec<usize> = dec
